@@ -29,7 +29,9 @@ PLAIN = ["u8", "u16", "u32", "u64", "u128", "i8", "i64", "bool", "String", "Vec<
 COMPACTABLE = ["u8", "u16", "u32", "u64", "u128"]
 GENERIC = ["{T}", "Vec<{T}>", "Option<{T}>", "[{T}; 3]", "Box<{T}>", "({T}, u8)", "PhantomData<{T}>", "Vec<Option<{T}>>", "Result<{T}, u8>"]
 DOCS = [["/// one line"], ["/// first", "/// second"], ["///no leading space"], ["///   three spaces"], ["/// before", "///", "/// after the empty line"],
-        ['#[doc = "attribute form"]'], ['#[doc = " attr with space"]', "/// and a comment"], ["/** block doc */"], ["/// trailing space "]]
+        ['#[doc = "attribute form"]'], ['#[doc = " attr with space"]', "/// and a comment"], ["/** block doc */"], ["/// trailing space "],
+        # `doc` attributes that are not text: they say nothing to the codec and carry no documentation line
+        ["#[doc(hidden)]"], ["#[doc(hidden)]", "/// documented and hidden"], ['#[doc(alias = "other")]', "/// after an alias"], ["/// before hidden", "#[doc(hidden)]", "/// after hidden"]]
 
 
 def docs(r, indent):
@@ -87,7 +89,7 @@ def generics(r):
         return "<T, U>", ["T", "U"], []
     if k == 5:
         return "<'a, T>", ["T"], ["&'a u8", "&'a str"]
-    return "<T, const N: usize>", ["T"], ["[u8; N]"]
+    return r.pick(["<T, const N: usize>", "<T, const N: usize = 3>"]), ["T"], ["[u8; N]"]
 
 
 def container_attrs(r, tparams, lifetimes=()):
